@@ -209,6 +209,7 @@ def check_map(case, rec=None):
     phases = {}
     for k in order:
         phases[ids[k]] = unitcell.unitcell(vox[k]["cell"], "P")
+        phases[ids[k]].name = "phase%d" % k          # as the Phases container names them (to_h5 stores the name)
     exp_c = np.full(shape + (3, 3), np.nan)
     exp_s = np.full(shape + (3, 3), np.nan)
     polarR = np.full(shape + (3, 3), np.nan)
@@ -302,6 +303,39 @@ def check_map(case, rec=None):
                                   "tensor_crystal_to_sample", route="rot"))
         else:
             fails.append(exc_failure("tensor rotation", back))
+    # ---- a map saved and loaded again: stored strain maps come back as stored, a strain recomputed from the loaded
+    #      UBIs and phases agrees to the 6 decimals the reference cells are written with
+    if not fails and case["mseed"] % 3 == 0:
+        import os
+        path = os.path.join(os.environ.get("VERIF_TMP", "."), "c10_tmap_%d.h5" % os.getpid())
+        try:
+            if os.path.exists(path):
+                os.remove(path)
+            ok, e = guard(ms.to_h5, path)
+            if ok:
+                ok, m2 = guard(tm.TensorMap.from_h5, path)
+            if not ok:
+                fails.append(exc_failure("TensorMap.to_h5/from_h5", e if not isinstance(e, type(None)) else m2))
+            else:
+                if sorted(m2.phases) != sorted(phases):
+                    fails.append(fail("reload", "phase ids %s saved, %s loaded" % (sorted(phases), sorted(m2.phases)),
+                                      route="h5"))
+                else:
+                    m_ = ~nan
+                    es3 = np.asarray(m2.eps_sample)
+                    if m_.any() and not np.array_equal(es3[m_], np.asarray(ms.eps_sample)[m_]):
+                        fails.append(fail("reload", "eps_sample stored in the file differs after loading", route="h5"))
+                    m3 = tm.TensorMap({"UBI": np.asarray(m2.UBI).copy(), "phase_ids": np.asarray(m2.phase_ids).copy()},
+                                      phases=dict(m2.phases))
+                    ok, ec3 = guard(lambda: m3.eps_crystal)
+                    if ok:
+                        loose = np.full(shape, 2e-5)
+                        cmp("TensorMap.eps_crystal recomputed from a saved and loaded map", ec3, exp_c, loose)
+                    else:
+                        fails.append(exc_failure("eps_crystal after from_h5", ec3))
+        finally:
+            if os.path.exists(path):
+                os.remove(path)
     if rec is not None:
         big = any(np.abs(np.array(v["e"])).max() >= 1e-3 for v in vox)
         nc = any(v["family"] != "cubic" for v in vox)
